@@ -167,8 +167,15 @@ def lossless_problems(x: Any, w: Any, d: Any, path: str = "") -> List[Dict[str, 
         attr_of = {f.wire: f.name for f in wiregen.fields(cls)} if cls else {}
         mem = members(x) if cls else (x if isinstance(x, dict) else {})
         for k, wv in w.items():
+            if wv is None and cls is not None:
+                continue                                  # a null member OF A MODEL is not visible in an exclude_none view
             if wv is None:
-                continue                                  # a null member is not visible in an exclude_none view
+                # inside a free-form value a null is data: it must still be there, as null
+                if k not in d or d[k] is not None:
+                    probs.append({"kind": "null-member-lost", "path": f"{path}.{k}" if path else k,
+                                  "member": "free-form-key:null-valued", "model": None,
+                                  "detail": "absent from the dump" if k not in d else f"became {d[k]!r:.40}"})
+                continue
             p = f"{path}.{k}" if path else k
             if k not in d:
                 probs.append({"kind": "member-lost", "path": p, "member": member_kind(cls, k),
@@ -702,8 +709,283 @@ def op_libedit(case: Dict[str, Any]) -> Dict[str, Any]:
     return out
 
 
+# ---------------------------------------------------------------------------
+# order of dump calls per class (C10): each sequence runs in a process forked for it from a worker that never dumps
+# ---------------------------------------------------------------------------
+DUMP_CALLS = [("model_dump()", "model_dump", {}),
+              ("model_dump(by_alias=True,exclude_none=True)", "model_dump", {"by_alias": True, "exclude_none": True}),
+              ("model_dump_json()", "model_dump_json", {}),
+              ("model_dump_json(by_alias=True,exclude_none=True)", "model_dump_json", {"by_alias": True, "exclude_none": True})]
+
+
+def op_dumporder(case: Dict[str, Any]) -> Any:
+    """case: {"target", "wires": [tagged, tagged], "calls": [[object index, DUMP_CALLS index], ...]} -> one output per call
+    (JSON value) plus, for the by-alias calls, the losslessness problems against the object's wire form."""
+    from .encseq import in_fork
+    import json as _json
+
+    cls = cls_of(case["target"])          # resolved (and every module imported) before forking
+
+    def run():
+        wires = [dec(w) for w in case["wires"]]
+        objs = [cls.model_validate(dec(w)) for w in case["wires"]]
+        out = []
+        for oi, ci in case["calls"]:
+            name, meth, kw = DUMP_CALLS[ci]
+            try:
+                r = getattr(objs[oi], meth)(**kw)
+                j = _json.loads(r) if isinstance(r, str) else to_plain(r)
+                item = {"value": enc(j)}
+                if kw.get("by_alias"):
+                    item["lossless"] = lossless_problems(objs[oi], wires[oi], j)
+                out.append(item)
+            except Exception as e:  # noqa: BLE001
+                out.append({"exc": exc_facts(e)})
+        return out
+
+    try:
+        return in_fork(run)
+    except Exception as e:  # noqa: BLE001
+        return [{"exc": {"exc": type(e).__name__, "detail": str(e)[:200]}}]
+
+
+# ---------------------------------------------------------------------------
+# reading an object must not change it: call every public zero-argument method / property, dump again
+# ---------------------------------------------------------------------------
+EXTRA_DUNDERS = ["__repr__", "__str__", "__copy__", "__hash__", "__iter__", "__sizeof__", "__dir__", "__getstate__",
+                 "__reduce__", "__pretty__", "__repr_args__", "__rich_repr__"]
+
+
+def _zero_arg(fn: Any) -> bool:
+    import inspect
+
+    try:
+        sig = inspect.signature(fn)
+    except (TypeError, ValueError):
+        return False
+    for p in sig.parameters.values():
+        if p.kind in (p.VAR_POSITIONAL, p.VAR_KEYWORD):
+            continue
+        if p.default is p.empty:
+            return False
+    return True
+
+
+def op_methods(case: Dict[str, Any]) -> Dict[str, Any]:
+    import copy
+    import warnings
+
+    wire = dec(case["wire"])
+    try:
+        x = _build(case["target"], wire)
+    except Exception as e:  # noqa: BLE001
+        return {"ok": False, **exc_facts(e)}
+    if isinstance(x, list):
+        return {"ok": True, "called": [], "changed": None, "batch": True}
+    before = _both_dumps(x)
+    called: List[str] = []
+    raised: List[str] = []
+    changed = None
+    names = sorted(n for n in dir(type(x)) if not n.startswith("_")) + [n for n in EXTRA_DUNDERS if hasattr(type(x), n)]
+    with warnings.catch_warnings():
+        warnings.simplefilter("ignore")
+        for n in names:
+            try:
+                static = inspect_getattr_static(type(x), n)
+                if isinstance(static, property) or not callable(getattr(x, n)):
+                    getattr(x, n)
+                    called.append(n)
+                else:
+                    bound = getattr(x, n)
+                    if not _zero_arg(bound):
+                        continue
+                    bound()
+                    called.append(n + "()")
+            except BaseException as e:  # noqa: BLE001 - a refusing method is not a change of the object
+                raised.append(f"{n}:{type(e).__name__}")
+        for label, f in (("==self", lambda: x == x), ("==copy", lambda: x == copy.copy(x)), ("!=None", lambda: x != None),  # noqa: E711
+                         ("in-list", lambda: x in [x]), ("str()", lambda: str(x)), ("repr()", lambda: repr(x)),
+                         ("deepcopy", lambda: copy.deepcopy(x))):
+            try:
+                f()
+                called.append(label)
+            except BaseException as e:  # noqa: BLE001
+                raised.append(f"{label}:{type(e).__name__}")
+    after = _both_dumps(x)
+    for via in before:
+        where = first_json_diff(before[via], after[via])
+        if where is not None:
+            changed = {"via": via, "path": _IDX.sub("[]", where)}
+            break
+    culprit = None
+    if changed is not None:
+        # which call did it: repeat on fresh objects, one call each
+        for c_ in called:
+            try:
+                y = _build(case["target"], dec(case["wire"]))
+                b = _both_dumps(y)
+                n = c_.rstrip("()")
+                if hasattr(y, n):
+                    v = getattr(y, n)
+                    if c_.endswith("()") and callable(v):
+                        v()
+                if first_json_diff(b["model_dump"], _both_dumps(y)["model_dump"]) is not None:
+                    culprit = c_
+                    break
+            except BaseException:  # noqa: BLE001
+                continue
+    return {"ok": True, "called": called, "raised": sorted(raised), "changed": changed, "culprit": culprit}
+
+
+def inspect_getattr_static(tp: Any, name: str) -> Any:
+    import inspect
+
+    try:
+        return inspect.getattr_static(tp, name)
+    except AttributeError:
+        return None
+
+
+# ---------------------------------------------------------------------------
+# equality of model objects (C09): ==, !=, membership, hash
+# ---------------------------------------------------------------------------
+def op_eqprobe(case: Dict[str, Any]) -> Dict[str, Any]:
+    try:
+        a = _build(case["target"], dec(case["a"]))
+        b = _build(case["target"], dec(case["b"]))
+    except Exception as e:  # noqa: BLE001
+        return {"ok": False, **exc_facts(e)}
+
+    def tri(f):
+        try:
+            r = f()
+            return bool(r) if isinstance(r, (bool, int)) else f"<{type(r).__name__}>"
+        except BaseException as e:  # noqa: BLE001
+            return f"raises:{type(e).__name__}"
+
+    return {"ok": True, "eq": tri(lambda: a == b), "ne": tri(lambda: a != b), "contains": tri(lambda: a in [b]),
+            "index": tri(lambda: [b].index(a) == 0), "hash_equal": tri(lambda: hash(a) == hash(b)),
+            "set_size": tri(lambda: len({a, b})), "eq_self": tri(lambda: a == a)}
+
+
+# ---------------------------------------------------------------------------
+# stateful helpers that hold model objects (C09): operation sequences, wire output
+# ---------------------------------------------------------------------------
+def discover_helpers() -> List[str]:
+    """Non-model classes named *Manager / *Registry defined under chuk_mcp.protocol."""
+    import inspect
+    import sys
+
+    backend_facts() if "classes" not in _STATE else None
+    out = set()
+    for mname, mod in list(sys.modules.items()):
+        if not mname.startswith("chuk_mcp.protocol") or mod is None:
+            continue
+        for n, obj in vars(mod).items():
+            if inspect.isclass(obj) and obj.__module__ == mname and not is_model_class(obj) \
+                    and (n.endswith("Manager") or n.endswith("Registry")):
+                out.add(f"{mname}:{n}")
+    return sorted(out)
+
+
+def is_model_class(c: Any) -> bool:
+    try:
+        return issubclass(c, wiregen.base_class())
+    except TypeError:
+        return False
+
+
+ROOT_OPS = ["add A", "add A-renamed", "add A-other-unknown-member", "add A-again", "add B", "remove A", "remove C", "clear"]
+ROOT_WIRES = {"A": {"uri": "file:///a", "name": "first"}, "A-renamed": {"uri": "file:///a", "name": "second"},
+              "A-other-unknown-member": {"uri": "file:///a", "name": "first", "x-extra": 1},
+              "A-again": {"uri": "file:///a", "name": "first"}, "B": {"uri": "file:///b"}}
+
+
+def helper_roots_manager(seq: List[int]) -> Any:
+    from chuk_mcp.protocol.messages.roots import send_messages as M
+
+    from . import serialisers
+
+    mgr = M.RootsManager()
+    for oi in seq:
+        op = ROOT_OPS[oi]
+        if op.startswith("add "):
+            mgr.add_root(M.Root.model_validate(dict(ROOT_WIRES[op[4:]])))
+        elif op == "remove A":
+            mgr.remove_root("file:///a")
+        elif op == "remove C":
+            mgr.remove_root("file:///c")
+        else:
+            mgr.clear()
+    resp = serialisers.on_loop(lambda: mgr.handle_list_request("r-1"))
+    return {"response": to_plain(serialisers.plain(resp)),
+            "roots": [to_plain(r.model_dump(by_alias=True, exclude_none=True)) for r in mgr.get_roots()]}
+
+
+TOOL_WIRES = [{"name": "t", "inputSchema": {"type": "object"}, "description": "first"},
+              {"name": "t", "inputSchema": {"type": "object", "properties": {"q": {"type": "string"}}}, "description": "second"},
+              {"name": "u", "inputSchema": {"type": "object"}}]
+HANDLER_KINDS = ["returns-ToolResult", "returns-dict", "returns-str", "returns-list", "raises"]
+
+
+def helper_tool_registry(seq: List[int]) -> Any:
+    """seq = [tool index, handler kind, second tool index or -1, name index called]"""
+    from chuk_mcp.protocol.types import tools as T
+
+    from . import serialisers
+
+    def handler_of(kind: str):
+        async def h(arguments):
+            if kind == "returns-ToolResult":
+                return T.create_text_tool_result("done " + str(sorted(arguments)))
+            if kind == "returns-dict":
+                return {"answer": 42, "schema": {"k": 1}, "_meta": {"m": 1}}
+            if kind == "returns-str":
+                return "text \u00e9"
+            if kind == "returns-list":
+                return [1, 2]
+            raise ValueError("boom")
+        return h
+
+    reg = T.ToolRegistry()
+    ti, hk, t2, ci = seq
+    reg.register_tool(T.Tool.model_validate(dict(TOOL_WIRES[ti])), handler_of(HANDLER_KINDS[hk]))
+    if t2 >= 0:
+        reg.register_tool(T.Tool.model_validate(dict(TOOL_WIRES[t2])), handler_of(HANDLER_KINDS[(hk + 1) % len(HANDLER_KINDS)]))
+    name = ["t", "u", "missing"][ci]
+    res = serialisers.on_loop(lambda: reg.call_tool(name, {"q": "x", "n": None}))
+    return {"tools": {k: to_plain(v.model_dump(by_alias=True, exclude_none=True)) for k, v in sorted(reg.tools.items())},
+            "result": to_plain(res.model_dump(by_alias=True, exclude_none=True)) if hasattr(res, "model_dump") else repr(res)}
+
+
+HELPER_DRIVERS = {
+    "chuk_mcp.protocol.messages.roots.send_messages:RootsManager": helper_roots_manager,
+    "chuk_mcp.protocol.types.tools:ToolRegistry": helper_tool_registry,
+}
+
+
+def op_helper(case: Dict[str, Any]) -> Dict[str, Any]:
+    d = HELPER_DRIVERS.get(case["helper"])
+    if d is None:
+        return {"no_driver": True}
+    try:
+        return {"output": enc(d(case["seq"]))}
+    except Exception as e:  # noqa: BLE001
+        return {"exc": exc_facts(e)}
+
+
 def child_handle(case: Any) -> Any:
     op = case.get("op", "validate")
+    if op == "dumporder":
+        return op_dumporder(case)
+    if op == "methods":
+        return op_methods(case)
+    if op == "eqprobe":
+        return op_eqprobe(case)
+    if op == "helper":
+        return op_helper(case)
+    if op == "helpers":
+        return {"helpers": discover_helpers(), "drivers": sorted(HELPER_DRIVERS)}
     if op == "inputmut":
         return op_inputmut(case)
     if op == "libedit":
